@@ -103,6 +103,17 @@ func cmdTTL(args []string) {
 			})
 		})
 		setext.deadline, setext.exact = setext.deadline.Add(time.Hour), true
+		// the same on a row that has NO committed deadline yet: the Extend still adds to the deadline
+		// the transaction itself has just set
+		fresh := ins("no-ttl-then-set-and-extended-in-one-txn", 0, false)
+		c.Query(func(txn *column.Txn) error {
+			return txn.QueryAt(fresh.off, func(r column.Row) error {
+				fresh.deadline = r.SetTTL(3 * time.Hour)
+				txn.TTL().Extend(time.Hour)
+				return nil
+			})
+		})
+		fresh.deadline, fresh.exact = fresh.deadline.Add(time.Hour), true
 		// a transaction that deletes a row with a deadline and inserts another row, then a row without
 		// a TTL that takes the freed offset over: it must not inherit the old deadline - on the
 		// primary, on the restored collection and on the replica (where the commit is replayed)
